@@ -61,7 +61,9 @@ def replay(traj):
     offset = [0]
     for f in copies:
         offset.append(offset[-1] + natoms[f - 1])
-    script = [names[copies[0] - 1]]
+    script = [] if cfg.get("start_fragment") else [names[copies[0] - 1]]
+    if cfg.get("start_fragment") and names[copies[0] - 1] != cfg["start_fragment"]:
+        return None      # the trajectory starts with another fragment than the one this configuration asks for
     for i, l in enumerate(traj["links"]):
         site = l["site"]
         script += [dstr(l["d"]), offset[site[0] - 1] + site[1] - 1, dstr(l["p"]),
@@ -76,7 +78,7 @@ def replay(traj):
                                                      terminal_bonds=list(cfg["terminal"]),
                                                      fragment_masses=dict(cfg["masses"]) if cfg.get("masses") else None,
                                                      all_atom=cfg["all_atom"], seed=1)
-            mol = s.sample(traj["target"] / 1000.0)
+            mol = s.sample(traj["target"] / 1000.0, start_fragment=cfg.get("start_fragment"))
     except Divergence as exc:
         return str(exc)
     except Exception as exc:
